@@ -383,7 +383,14 @@ func init() {
 
 // RunJobs runs this binary once per job (argument list) with at most NProc in
 // parallel and returns each job's stdout.
-func RunJobs(jobs [][]string) [][]byte {
+func RunJobs(jobs [][]string) [][]byte { return RunJobsWith(jobs, nil) }
+
+// RunJobsWith is RunJobs with arguments computed when a job actually starts: atStart gets the
+// number of jobs not yet started (this one included), so that a time budget can be shared out
+// over what is really left instead of a worst case fixed in advance.
+func RunJobsWith(jobs [][]string, atStart func(remaining int) []string) [][]byte {
+	var startMu sync.Mutex
+	started := 0
 	outs := make([][]byte, len(jobs))
 	errs := make([]error, len(jobs))
 	sem := make(chan struct{}, NProc())
@@ -395,6 +402,12 @@ func RunJobs(jobs [][]string) [][]byte {
 			sem <- struct{}{}
 			defer func() { <-sem }()
 			args := append([]string{"-id", *ID, "-tier", *Tier, "-root", *Root, "-variant", *Variant}, jobs[i]...)
+			if atStart != nil {
+				startMu.Lock()
+				args = append(args, atStart(len(jobs)-started)...)
+				started++
+				startMu.Unlock()
+			}
 			cmd := exec.Command(os.Args[0], args...)
 			cmd.Stderr = os.Stderr
 			cmd.Env = append(os.Environ(), "GOMAXPROCS=2", fmt.Sprintf("VERIF_START_UNIX=%d", Start.Unix()))
